@@ -77,7 +77,7 @@ func init() {
 			return "", err
 		}
 		for _, p := range [][2]string{{"schemaGenFieldCalls", "genFieldID"}, {"schemaGenTagKeyCalls", "genTagKeyID"},
-			{"schemaGetSchemaCalls", "GetSchema"}, {"schemaFlushCalls", "Flush"}} {
+			{"schemaGetSchemaCalls", "GetSchema"}, {"schemaFlushCalls", "Flush"}, {"schemaPrepareFlushCalls", "PrepareFlush"}} {
 			if err := emit(p[0], FindFunc(ssf, "metricSchemaStore", p[1]), "metricSchemaStore."+p[1]); err != nil {
 				return "", err
 			}
@@ -103,6 +103,12 @@ func init() {
 			if err := emit(p[0], FindFunc(mif, "metricIndexDatabase", p[1]), "metricIndexDatabase."+p[1]); err != nil {
 				return "", err
 			}
+		}
+		if err := emit("invertedPrepareFlushCalls", FindFunc(mif, "invertedIndex", "prepareFlush"), "invertedIndex.prepareFlush"); err != nil {
+			return "", err
+		}
+		if err := emit("forwardPrepareFlushCalls", FindFunc(mif, "forwardIndex", "prepareFlush"), "forwardIndex.prepareFlush"); err != nil {
+			return "", err
 		}
 		// ---- default limits (models/limits.go, NewDefaultLimits composite literal)
 		_, lf, err := ParseFile(repo, "models/limits.go")
